@@ -375,7 +375,7 @@ impl Prop for C13 {
         "C13"
     }
     fn phases(&self, tier: Tier) -> Vec<PhaseSpec> {
-        vec![ph("square systems n=1..8", tier.pick(6_000, 400_000)), ph("tall least-squares systems up to 12x6", tier.pick(2_000, 100_000))]
+        vec![ph("square systems n=1..8", tier.pick(15_000, 600_000)), ph("tall least-squares systems up to 12x6", tier.pick(5_000, 200_000))]
     }
     fn required_classes(&self, _tier: Tier) -> Vec<String> {
         let mut v = vec![];
